@@ -88,6 +88,17 @@ func fault(i int, w http.ResponseWriter, r *rec) bool {
 			time.Sleep(5 * time.Millisecond)
 		}
 	}
+	if sc.FaultKind == "eof" && sc.FaultReq >= 0 && i > sc.FaultReq {
+		// the device is gone: every later connection is closed as well (the HTTP client
+		// transparently repeats an idempotent request whose connection was closed)
+		r.Fault = "eof"
+		emit(r)
+		if hj, ok := w.(http.Hijacker); ok {
+			c, _, _ := hj.Hijack()
+			c.Close()
+		}
+		return true
+	}
 	if sc.FaultReq != i || sc.FaultKind == "jobfail" {
 		return false
 	}
